@@ -486,7 +486,7 @@ def unit_gamma_prefix(prop):
                     c2["bank"] = dict(c2["bank"], bank="gamma", order=4, max_centered=False)
                 out.append(c2)
             return out
-        jobs = [("contracts.filters_gabor", "generate_gamma", (prop, label)) for label in C.LABELS]
+        jobs = [("contracts.filters_gabor", "generate_gamma", (prop, label)) for label in C.LABELS[:2]]
         return run_parallel("gamma_init_prefix", jobs, to_case=tc, replay_module="rtc.c05")
     unit.__name__ = "gamma_init_prefix"
     return unit
